@@ -58,6 +58,12 @@ func (e *Engine) VerifyFunc(fn *ssa.Function, spec *FuncSpec) (res *FuncResult) 
 	if len(fn.Blocks) == 0 {
 		panic(unsupported("function has no body"))
 	}
+	if spec.SignalChans {
+		if why := signalChanSends(fn.Pkg); why != "" {
+			panic(unsupported("signal-channels: " + why))
+		}
+		e.Assumptions["signal channels (chan struct{}) of package "+fn.Pkg.Pkg.Name()+" are only ever closed (no send in the package, checked; context.Done channels by the context package's documentation): a receive completes only after close"] = true
+	}
 	fi := e.info(fn)
 	// every loop must have a contract entry; extra entries mean the contract is stale
 	for ord := range spec.Loops {
@@ -146,7 +152,18 @@ func (e *Engine) VerifyFunc(fn *ssa.Function, spec *FuncSpec) (res *FuncResult) 
 		for i, n := range resultNames {
 			penv[n] = results[i]
 		}
+		// captured variables: the name is the current value, old(name) the value on entry
+		for i, fv := range fn.FreeVars {
+			if p, ok := s.frames[0].freeVars[i].(VPtr); ok && p.L != nil && p.L.Kind == LCell {
+				if cv, ok := s.cellv[p.L.Cell]; ok {
+					penv[fv.Name()] = cv
+				}
+			}
+		}
 		ctx := &specCtx{e: e, st: s, env: penv, heaps: s.heaps, oldHeaps: s.old, pkg: fn.Pkg, results: results, goal: true}
+		if len(fvEnv) > 0 {
+			ctx.oldEnv = fvEnv
+		}
 		root := s.frames[0]
 		for _, w := range spec.Witness {
 			wenv := map[string]Val{}
@@ -403,4 +420,53 @@ func (e *Engine) VerifyLemma(pkg *ssa.Package, lm *LemmaSpec) (res *FuncResult) 
 	res.Paths = 1
 	e.obs = nil
 	return res
+}
+
+// signalChanSends looks for a send on a chan struct{} anywhere in the package.
+func signalChanSends(pkg *ssa.Package) string {
+	var visit func(f *ssa.Function) string
+	visit = func(f *ssa.Function) string {
+		for _, b := range f.Blocks {
+			for _, in := range b.Instrs {
+				switch x := in.(type) {
+				case *ssa.Send:
+					if isSignalChan(x.Chan.Type()) {
+						return "send on a chan struct{} in " + f.String()
+					}
+				case *ssa.Select:
+					for _, sc := range x.States {
+						if sc.Dir == types.SendOnly && isSignalChan(sc.Chan.Type()) {
+							return "send on a chan struct{} in " + f.String()
+						}
+					}
+				}
+			}
+		}
+		for _, a := range f.AnonFuncs {
+			if r := visit(a); r != "" {
+				return r
+			}
+		}
+		return ""
+	}
+	for _, m := range pkg.Members {
+		if f, ok := m.(*ssa.Function); ok {
+			if r := visit(f); r != "" {
+				return r
+			}
+		}
+		if tn, ok := m.(*ssa.Type); ok {
+			for _, t := range []types.Type{tn.Type(), types.NewPointer(tn.Type())} {
+				ms := pkg.Prog.MethodSets.MethodSet(t)
+				for i := 0; i < ms.Len(); i++ {
+					if f := pkg.Prog.MethodValue(ms.At(i)); f != nil && f.Pkg == pkg {
+						if r := visit(f); r != "" {
+							return r
+						}
+					}
+				}
+			}
+		}
+	}
+	return ""
 }
